@@ -203,21 +203,22 @@ Qed.
 
 (** [n] names a revision [r] of the ascending chain [L] that may be archived: r has confirmed it is paused, is
     not archived yet, is not the newest, and either a newer revision is Available, or r is unavailable, has
-    reported what it controls and controls nothing the next newer revision contains. *)
-Definition archivable (objs : dset -> list okey) (L : list dset) (n : N) : Prop :=
+    reported what it controls and controls nothing the next newer revision contains ([objs]), where the contents of
+    the next newer revision are known ([okn]: every ObjectSlice it references could be read). *)
+Definition archivable (objs : dset -> list okey) (okn : dset -> Prop) (L : list dset) (n : N) : Prop :=
   exists l1 r l2, L = l1 ++ r :: l2 /\ sname r = n /\ l2 <> [] /\ is_status_paused r = true /\ is_archived r = false /\
     ((exists s, In s l2 /\ is_available s = true /\ (srev r < srev s)%Z) \/
      (is_available r = false /\ exists nx l3 act, l2 = nx :: l3 /\ (srev r < srev nx)%Z /\ active_objects r = Some act /\
-        forall k, In k act -> ~ In k (objs nx))).
+        okn nx /\ forall k, In k act -> ~ In k (objs nx))).
 
 (** The same on the descending list the Go loop walks. *)
-Definition cand (objs : dset -> list okey) (rl : list dset) (n : N) : Prop :=
+Definition cand (objs : dset -> list okey) (okn : dset -> Prop) (rl : list dset) (n : N) : Prop :=
   exists pre r post, rl = pre ++ r :: post /\ pre <> [] /\ sname r = n /\ is_status_paused r = true /\ is_archived r = false /\
     ((exists s, In s pre /\ is_available s = true /\ (srev r < srev s)%Z) \/
      (is_available r = false /\ exists pre' nx act, pre = pre' ++ [nx] /\ (srev r < srev nx)%Z /\ active_objects r = Some act /\
-        is_nil (inter_keys (objs nx) act) = true)).
+        okn nx /\ is_nil (inter_keys (objs nx) act) = true)).
 
-Lemma cand_cons objs c rl n : cand objs rl n -> cand objs (c :: rl) n.
+Lemma cand_cons objs okn c rl n : cand objs okn rl n -> cand objs okn (c :: rl) n.
 Proof.
   intros (pre & r & post & -> & Hne & Hn & Hp & Ha & Hd). exists (c :: pre), r, post. repeat split; auto; [discriminate|].
   destruct Hd as [(s & Hs & H1 & H2)|(Hav & pre' & nx & act & -> & H)].
@@ -225,18 +226,23 @@ Proof.
   - right. split; [assumption|]. exists (c :: pre'), nx, act. split; [reflexivity|exact H].
 Qed.
 
-Lemma cand_archivable objs L n : cand objs (rev L) n -> archivable objs L n.
+Lemma cand_archivable objs okn L n : cand objs okn (rev L) n -> archivable objs okn L n.
 Proof.
   intros (pre & r & post & E & Hne & Hn & Hp & Ha & Hd).
   assert (EL : L = rev post ++ r :: rev pre).
   { rewrite <- (rev_involutive L), E, rev_app_distr. cbn. now rewrite <- app_assoc. }
   exists (rev post), r, (rev pre). repeat split; auto.
   - intros H. apply Hne. rewrite <- (rev_involutive pre), H. reflexivity.
-  - destruct Hd as [(s & Hs & H1 & H2)|(Hav & pre' & nx & act & -> & Hr & Hact & Hi)].
+  - destruct Hd as [(s & Hs & H1 & H2)|(Hav & pre' & nx & act & -> & Hr & Hact & Hk & Hi)].
     + left. exists s. split; [now apply in_rev in Hs|auto].
     + right. split; [assumption|]. exists nx, (rev pre'), act. rewrite rev_app_distr. cbn. repeat split; auto.
       now apply inter_keys_nil.
 Qed.
+
+(** every ObjectSlice the revision references can be read *)
+Definition refs_known (slices : N -> option (list pobj)) (s : dset) : Prop := forall n, In n (slice_refs s) -> slices n <> None.
+(** what the archive decision knows about the next newer revision: everything, once it reads the slices *)
+Definition okn_sh (slices : N -> option (list pobj)) (sliceaware : bool) (s : dset) : Prop := sliceaware = true -> refs_known slices s.
 
 Section Archive.
   Variable fault : option (nat * bool).
@@ -244,6 +250,7 @@ Section Archive.
   Variable sliceaware : bool.
   Variable rev0ok : bool.
   Let objs := seen_objects_sh slices sliceaware.
+  Let okn := okn_sh slices sliceaware.
 
   Lemma ensure_paused_true st mem s st' mem' :
     ensure_paused fault st mem s = (st', mem', true) -> is_status_paused s = true /\ st' = st /\ mem' = mem.
@@ -268,22 +275,92 @@ Section Archive.
     - destruct (IH _ _ _ _ _ Er2 n Hn) as (q & Hq & R). exists q. split; [now right|exact R].
   Qed.
 
+  (** Once a request has failed nothing else happens in the pass. *)
+  Lemma upd_req_dead st s life pbp : p_dead st = true -> upd_req fault st s life pbp = (st, s).
+  Proof. unfold upd_req. now intros ->. Qed.
+
+  Lemma get_req_dead st b : p_dead st = true -> get_req fault st b = st.
+  Proof. unfold get_req. now intros ->. Qed.
+
+  Lemma ensure_paused_dead st mem s st' mem' b :
+    ensure_paused fault st mem s = (st', mem', b) -> p_dead st = true -> p_dead st' = true.
+  Proof.
+    unfold ensure_paused. intros H Hd. destruct (is_status_paused s); [now injection H as <- _ _|].
+    destruct (is_spec_paused s); [now injection H as <- _ _|]. rewrite (upd_req_dead _ _ _ _ Hd) in H. now injection H as <- _ _.
+  Qed.
+
+  Lemma load_slices_req_dead s : forall st, p_dead st = true -> p_dead (load_slices_req fault slices st s) = true.
+  Proof.
+    unfold load_slices_req. generalize (slice_refs s). intros l. induction l as [|n r IH]; intros st Hd; cbn; [assumption|].
+    apply IH. now rewrite (get_req_dead _ _ Hd).
+  Qed.
+
+  (** ... and if the pass is still alive after the slice reads, every referenced slice was there. *)
+  Lemma load_slices_req_alive s : forall st, p_dead (load_slices_req fault slices st s) = false -> refs_known slices s.
+  Proof.
+    unfold load_slices_req, refs_known. generalize (slice_refs s). intros l. induction l as [|n r IH]; intros st Ha m Hm; [contradiction|].
+    cbn in Ha. destruct Hm as [<-|Hm]; [|eapply IH; eauto].
+    destruct (p_dead (get_req fault st (match slices n with Some _ => true | None => false end))) eqn:Eg.
+    - assert (Hd : p_dead (fold_left (fun st0 n0 => get_req fault st0 (match slices n0 with Some _ => true | None => false end)) r
+                             (get_req fault st (match slices n with Some _ => true | None => false end))) = true).
+      { clear - Eg. revert Eg. generalize (get_req fault st (match slices n with Some _ => true | None => false end)).
+        induction r as [|x r IH]; intros st0 Hd; cbn; [assumption|]. apply IH. now rewrite (get_req_dead _ _ Hd). }
+      congruence.
+    - unfold get_req in Eg. destruct (p_dead st) eqn:Ed; [congruence|]. destruct (fault_now fault st); cbn in Eg; try discriminate.
+      destruct (slices n); [discriminate|cbn in Eg; discriminate].
+  Qed.
+
+  Lemma archive_all_later_dead cur later : forall st mem st' mem' l,
+    archive_all_later fault st mem cur later = (st', mem', l) -> p_dead st = true -> p_dead st' = true.
+  Proof.
+    induction later as [|p r IH]; cbn; intros st mem st' mem' l H Hd; [now injection H as <- _ _|].
+    destruct (is_archived p); [eapply IH; eauto|]. destruct (srev p <? srev cur)%Z; [|eapply IH; eauto].
+    destruct (ensure_paused fault st mem p) as [[st1 mem1] b] eqn:Ee.
+    destruct (archive_all_later fault st1 mem1 cur r) as [[st2 mem2] l2] eqn:Er2. injection H as <- _ _.
+    eapply IH; [exact Er2|]. eapply ensure_paused_dead; eauto.
+  Qed.
+
+  Lemma intermediate_dead st mem prev cur st' mem' b :
+    intermediate_sh fault slices sliceaware st mem prev cur = (st', mem', b) -> p_dead st = true -> p_dead st' = true.
+  Proof.
+    unfold intermediate_sh. intros H Hd.
+    assert (H0 : p_dead (if sliceaware then load_slices_req fault slices st cur else st) = true)
+      by (destruct sliceaware; [now apply load_slices_req_dead|assumption]).
+    destruct (active_objects prev); [|now injection H as <- _ _].
+    destruct (is_nil _ && negb _); [eapply ensure_paused_dead; eauto|now injection H as <- _ _].
+  Qed.
+
+  Lemma to_archive_dead : forall rl st mem st' mem' l,
+    to_archive_sh fault slices sliceaware st mem rl = (st', mem', l) -> p_dead st = true -> p_dead st' = true.
+  Proof.
+    induction rl as [|cur rest IH]; intros st mem st' mem' l H Hd; [cbn in H; now injection H as <- _ _|].
+    cbn [to_archive_sh] in H. destruct (is_available cur); [eapply archive_all_later_dead; eauto|].
+    destruct rest as [|prev rest']; [now injection H as <- _ _|].
+    destruct (is_archived prev); [eapply IH; eauto|]. destruct (srev cur <=? srev prev)%Z; [eapply IH; eauto|].
+    destruct (intermediate_sh fault slices sliceaware st mem prev cur) as [[st1 mem1] b] eqn:Ei.
+    destruct (to_archive_sh fault slices sliceaware st1 mem1 (prev :: rest')) as [[st2 mem2] l2] eqn:Et. injection H as <- _ _.
+    eapply IH; [exact Et|]. eapply intermediate_dead; eauto.
+  Qed.
+
   Lemma intermediate_true st mem prev cur st' mem' :
     intermediate_sh fault slices sliceaware st mem prev cur = (st', mem', true) ->
-    is_status_paused prev = true /\ is_available prev = false /\
+    is_status_paused prev = true /\ is_available prev = false /\ (p_dead st' = false -> okn cur) /\
     exists act, active_objects prev = Some act /\ is_nil (inter_keys (objs cur) act) = true.
   Proof.
     unfold intermediate_sh. destruct (active_objects prev) as [act|]; [|discriminate].
     fold objs. destruct (is_nil (inter_keys (objs cur) act)) eqn:Ei; cbn [andb]; [|discriminate].
-    destruct (is_available prev); cbn [negb]; [discriminate|]. intros H. apply ensure_paused_true in H.
-    split; [tauto|]. split; [reflexivity|]. exists act. auto.
+    destruct (is_available prev); cbn [negb]; [discriminate|]. intros H. apply ensure_paused_true in H. destruct H as (Hsp & -> & _).
+    split; [assumption|]. split; [reflexivity|]. split; [|exists act; auto].
+    unfold okn, okn_sh. intros Ha ->. now apply load_slices_req_alive in Ha.
   Qed.
 
-  (** objectSetsToBeArchived only names archivable revisions: for every chain, any length, any flags. *)
+  (** objectSetsToBeArchived only names archivable revisions: for every chain, any length, any flags
+      (as long as no request of the walk failed: otherwise the pass ends with an error and archives nothing). *)
   Lemma to_archive_sound : forall rl st mem st' mem' l,
-    to_archive_sh fault slices sliceaware st mem rl = (st', mem', l) -> forall n, In n l -> cand objs rl n.
+    to_archive_sh fault slices sliceaware st mem rl = (st', mem', l) -> p_dead st' = false ->
+    forall n, In n l -> cand objs okn rl n.
   Proof.
-    induction rl as [|cur rest IH]; intros st mem st' mem' l H n Hn; [cbn in H; injection H as _ _ <-; contradiction|].
+    induction rl as [|cur rest IH]; intros st mem st' mem' l H Hal n Hn; [cbn in H; injection H as _ _ <-; contradiction|].
     cbn [to_archive_sh] in H. destruct (is_available cur) eqn:Eav.
     - destruct (archive_all_later_sound _ _ _ _ _ _ _ H n Hn) as (p & Hp & Hnm & Ha & Hr & Hsp).
       apply in_rev in Hp. apply in_split in Hp. destruct Hp as (a & b & ->).
@@ -292,22 +369,25 @@ Section Archive.
       destruct (is_archived prev) eqn:Ea; [apply cand_cons; eapply IH; eauto|].
       destruct (srev cur <=? srev prev)%Z eqn:Er; [apply cand_cons; eapply IH; eauto|].
       destruct (intermediate_sh fault slices sliceaware st mem prev cur) as [[st1 mem1] b] eqn:Ei.
-      destruct (to_archive_sh fault slices sliceaware st1 mem1 (prev :: rest')) as [[st2 mem2] l2] eqn:Et. injection H as _ _ <-.
+      destruct (to_archive_sh fault slices sliceaware st1 mem1 (prev :: rest')) as [[st2 mem2] l2] eqn:Et. injection H as <- _ <-.
       assert (Hin : (b = true /\ n = sname prev) \/ In n l2).
       { destruct b; [destruct Hn as [<-|Hn]; [left; auto|now right]|now right]. }
       destruct Hin as [[-> ->]|Hin]; [|apply cand_cons; eapply IH; eauto].
-      apply intermediate_true in Ei. destruct Ei as (Hsp & Hav & act & Hact & Hi).
+      assert (Hal1 : p_dead st1 = false).
+      { destruct (p_dead st1) eqn:E1; [|reflexivity]. rewrite (to_archive_dead _ _ _ _ _ _ Et E1) in Hal. discriminate. }
+      apply intermediate_true in Ei. destruct Ei as (Hsp & Hav & Hk & act & Hact & Hi).
       exists [cur], prev, rest'. repeat split; auto; [discriminate|]. right. split; [assumption|].
       exists [], cur, act. apply Z.leb_gt in Er. repeat split; auto.
   Qed.
 
   Theorem archive_kernel_sound L st mem st' mem' l :
-    to_archive_sh fault slices sliceaware st mem (rev L) = (st', mem', l) -> forall n, In n l -> archivable objs L n.
-  Proof. intros H n Hn. apply cand_archivable. eapply to_archive_sound; eauto. Qed.
+    to_archive_sh fault slices sliceaware st mem (rev L) = (st', mem', l) -> p_dead st' = false ->
+    forall n, In n l -> archivable objs okn L n.
+  Proof. intros H Hal n Hn. apply cand_archivable. eapply to_archive_sound; eauto. Qed.
 End Archive.
 
 (** The newest revision of a chain is never archivable (names unique). *)
-Lemma archivable_not_newest objs L n : NoDup (map sname L) -> archivable objs L n ->
+Lemma archivable_not_newest objs okn L n : NoDup (map sname L) -> archivable objs okn L n ->
   exists l0 newest, L = l0 ++ [newest] /\ sname newest <> n.
 Proof.
   intros Hnd (l1 & r & l2 & -> & Hn & Hne & _).
@@ -344,27 +424,39 @@ Proof.
   apply flat_map_ext. intros n. destruct (slices n); [|reflexivity]. apply map_ext. intros p. unfold spec_key, desired_key, as_owner. cbn. now rewrite Hid.
 Qed.
 
+Lemma okn_sh_core slices sliceaware a b : same_core a b -> okn_sh slices sliceaware b -> okn_sh slices sliceaware a.
+Proof.
+  intros (_ & _ & _ & _ & _ & _ & Hph & _) H Hs. specialize (H Hs). unfold refs_known, slice_refs, all_objects in *. now rewrite Hph.
+Qed.
+
+Lemma archivable_okn_impl objs (okn okn' : dset -> Prop) L n : (forall s, okn s -> okn' s) -> archivable objs okn L n -> archivable objs okn' L n.
+Proof.
+  intros Hi (l1 & r & l2 & EL & Hn & Hne & Hp & Ha & Hd). exists l1, r, l2. repeat split; auto.
+  destruct Hd as [H|(Hav & nx & l3 & act & E & Hr & Hact & Hk & Hdis)]; [now left|right].
+  split; [assumption|]. exists nx, l3, act. repeat split; auto.
+Qed.
+
 Lemma Forall2_in_right {A B} (R : A -> B -> Prop) l l' : Forall2 R l l' -> forall y, In y l' -> exists x, In x l /\ R x y.
 Proof.
   induction 1 as [|x y l l' Hxy HF IH]; cbn; [contradiction|]. intros z [<-|Hz]; [exists x; auto|].
   destruct (IH z Hz) as (x' & Hx' & Hr). exists x'. auto.
 Qed.
 
-Lemma archivable_core objs L L' n : (forall a b, same_core a b -> objs a = objs b) ->
-  Forall2 same_core L L' -> archivable objs L' n -> archivable objs L n.
+Lemma archivable_core objs (okn : dset -> Prop) L L' n : (forall a b, same_core a b -> objs a = objs b) -> (forall a b, same_core a b -> okn b -> okn a) ->
+  Forall2 same_core L L' -> archivable objs okn L' n -> archivable objs okn L n.
 Proof.
-  intros Hobjs HF (l1' & r' & l2' & -> & Hn & Hne & Hp & Ha & Hd).
+  intros Hobjs Hokn HF (l1' & r' & l2' & -> & Hn & Hne & Hp & Ha & Hd).
   apply Forall2_app_inv_r in HF. destruct HF as (l1 & x & _ & HF & ->).
   inversion HF as [|r ? l2 ? Hr H2]; subst.
   destruct (same_core_facts _ _ Hr) as (En & Erv & Esp & Eav & Ear & Eact & _ & _).
   exists l1, r, l2. repeat split; try congruence.
   - intros ->. inversion H2. subst. now apply Hne.
-  - destruct Hd as [(s' & Hs' & H1 & H2')|(Hav & nx' & l3' & act & -> & Hrv & Hact & Hdis)].
+  - destruct Hd as [(s' & Hs' & H1 & H2')|(Hav & nx' & l3' & act & -> & Hrv & Hact & Hkn & Hdis)].
     + left. destruct (Forall2_in_right _ _ _ H2 _ Hs') as (s & Hs & Hss).
       destruct (same_core_facts _ _ Hss) as (_ & Erv' & _ & Eav' & _). exists s. repeat split; try congruence.
     + right. split; [congruence|]. inversion H2 as [|nx ? l3 ? Hnx H3]; subst.
       destruct (same_core_facts _ _ Hnx) as (_ & Erv' & _ & _ & _ & _ & Eobj & _).
-      exists nx, l3, act. repeat split; try congruence. now rewrite (Hobjs _ _ Hnx).
+      exists nx, l3, act. repeat split; try congruence; [eapply Hokn; eauto|]. now rewrite (Hobjs _ _ Hnx).
 Qed.
 
 (** * Part 3: one pass of the ObjectDeployment controller *)
@@ -558,7 +650,18 @@ Section PassEvents.
   (** Every event of the archive reconciler: a pause request, the archival of an archivable revision, or a
       garbage-collection delete of one of the oldest revisions beyond the limit. *)
   Definition archive_ev (d : depl) (mem : list dset) (e : dev) : Prop :=
-    ens_ev e \/ (exists n pbp r, e = DUpdate n LArchived pbp r /\ archivable (seen_objects_sh slices sliceaware) mem n) \/ gc_ev d (map sname (removelast mem)) e.
+    ens_ev e \/ (exists n pbp r, e = DUpdate n LArchived pbp r /\ archivable (seen_objects_sh slices sliceaware) (okn_sh slices sliceaware) mem n) \/ gc_ev d (map sname (removelast mem)) e.
+
+  Lemma fold_del_dead : forall names st, p_dead st = true -> fold_left (del_req fault) names st = st.
+  Proof. induction names as [|n r IH]; cbn; intros st Hd; [reflexivity|]. unfold del_req at 2. rewrite Hd. now apply IH. Qed.
+
+  Lemma mark_dead d prevnames : forall cands st mem st' mem',
+    p_dead st = true -> mark fault st mem d prevnames cands = (st', mem') -> st' = st.
+  Proof.
+    induction cands as [|c r IH]; cbn [mark]; intros st mem st' mem' Hd H; [now injection H as <- _|].
+    rewrite (upd_req_dead fault _ _ _ _ Hd) in H.
+    destruct (negb (is_archived c) && is_status_paused c); unfold gc in H; rewrite (fold_del_dead _ _ Hd) in H; eapply IH; eauto.
+  Qed.
 
   Lemma archive_news st d has_cur mem st' mem' :
     archive_sh fault slices sliceaware st d has_cur mem = (st', mem') ->
@@ -566,12 +669,17 @@ Section PassEvents.
   Proof.
     unfold archive_sh. destruct has_cur; cbn [negb].
     - destruct (to_archive_sh fault slices sliceaware st mem (rev mem)) as [[st1 mem1] names] eqn:Et. intros Hm.
-      destruct (to_archive_news _ _ _ _ _ _ Et) as (e1 & H1 & F1). destruct (mark_news _ _ _ _ _ _ _ Hm) as (e2 & H2 & F2).
-      exists (e1 ++ e2). split; [eapply news_trans; eauto|]. split; [discriminate|]. apply Forall_app. split.
-      + eapply Forall_impl; [|exact F1]. intros e He. now left.
-      + eapply Forall_impl; [|exact F2]. intros e [(c & rr & Hc & ->)|He]; [|right; now right].
-        right. left. exists (sname c), (ds_pbp c), rr. split; [reflexivity|].
-        apply (archive_kernel_sound fault slices sliceaware _ _ _ _ _ _ Et). apply isort_in in Hc. eapply lookup_all_names; eauto.
+      destruct (to_archive_news _ _ _ _ _ _ Et) as (e1 & H1 & F1).
+      destruct (p_dead st1) eqn:Ed1.
+      + (* a request of the walk failed: nothing else is sent *)
+        rewrite (mark_dead _ _ _ _ _ _ _ Ed1 Hm). exists e1. split; [assumption|]. split; [discriminate|].
+        eapply Forall_impl; [|exact F1]. intros e He. now left.
+      + destruct (mark_news _ _ _ _ _ _ _ Hm) as (e2 & H2 & F2).
+        exists (e1 ++ e2). split; [eapply news_trans; eauto|]. split; [discriminate|]. apply Forall_app. split.
+        * eapply Forall_impl; [|exact F1]. intros e He. now left.
+        * eapply Forall_impl; [|exact F2]. intros e [(c & rr & Hc & ->)|He]; [|right; now right].
+          right. left. exists (sname c), (ds_pbp c), rr. split; [reflexivity|].
+          apply (archive_kernel_sound fault slices sliceaware _ _ _ _ _ _ Et Ed1). apply isort_in in Hc. eapply lookup_all_names; eauto.
     - intros H. injection H as <- _. exists []. split; [apply news_refl|]. split; [reflexivity|constructor].
   Qed.
 
@@ -721,7 +829,7 @@ Section PassTheorems.
     | DUpdate n life pbp r =>
         norev0 /\
         match life with
-        | LArchived => d_paused d = false /\ has_current d1 L = true /\ archivable (seen_objects_sh slices sliceaware) L n
+        | LArchived => d_paused d = false /\ has_current d1 L = true /\ archivable (seen_objects_sh slices sliceaware) (okn_sh slices sliceaware) L n
         | LActive => d_paused d = false /\ pbp = false /\
                      exists s, In s L /\ sname s = n /\ is_archived s = false /\ paused_by_parent s = true
         | LPaused => if d_paused d
@@ -801,7 +909,7 @@ Section PassTheorems.
         * destruct (has_current d1 L) eqn:Ehc; [|rewrite (Hnil eq_refl); constructor].
           eapply Forall_impl; [|exact Hesa]. intros e [(n & pbp & rr & ->)|[(n & pbp & rr & -> & Harch)|(n & rr & -> & Hin)]].
           -- cbn. fold d1 L. split; [assumption|]. rewrite <- Hpa, Epa. exact Ehc.
-          -- cbn. fold d1 L. split; [assumption|]. rewrite <- Hpa. repeat split; auto. eapply archivable_core; eauto. apply seen_objects_core.
+          -- cbn. fold d1 L. split; [assumption|]. rewrite <- Hpa. repeat split; auto. eapply archivable_core; eauto; [apply seen_objects_core|apply okn_sh_core].
           -- cbn. fold d1 L. rewrite <- Hpa. repeat split; auto.
              rewrite map_removelast, <- Hnames, <- map_removelast, map_length in Hin.
              unfold gc_count in *. now rewrite <- Hlim.
@@ -824,7 +932,7 @@ Section PassTheorems.
   (** ** C08, pass level *)
   Theorem archive_sound stale w w' evs r n pbp ur :
     NoDup (map sname (dw_sets w)) -> dep_pass_sh hash fault slices sliceaware rev0ok stale w = (w', evs, r) -> In (DUpdate n LArchived pbp ur) evs ->
-    d_paused (dw_dep w) = false /\ archivable (seen_objects_sh slices sliceaware) (listed stale w) n.
+    d_paused (dw_dep w) = false /\ archivable (seen_objects_sh slices sliceaware) (okn_sh slices sliceaware) (listed stale w) n.
   Proof.
     intros Hnd Hp Hin. pose proof (dep_pass_justified _ _ _ _ _ Hnd Hp) as HF. rewrite Forall_forall in HF.
     specialize (HF _ Hin). cbn in HF. tauto.
@@ -834,7 +942,7 @@ Section PassTheorems.
     NoDup (map sname (dw_sets w)) -> dep_pass_sh hash fault slices sliceaware rev0ok stale w = (w', evs, r) -> In (DUpdate n LArchived pbp ur) evs ->
     exists l0 newest, listed stale w = l0 ++ [newest] /\ sname newest <> n.
   Proof.
-    intros Hnd Hp Hin. apply (archivable_not_newest (seen_objects_sh slices sliceaware)); [now apply listed_nodup|]. eapply archive_sound; eauto.
+    intros Hnd Hp Hin. apply (archivable_not_newest (seen_objects_sh slices sliceaware) (okn_sh slices sliceaware)); [now apply listed_nodup|]. eapply archive_sound; eauto.
   Qed.
 
   Lemma firstn_in {A} (l : list A) : forall k x, In x (firstn k l) -> In x l.
@@ -2592,20 +2700,43 @@ Proof. exists wit_w0, wit_stale_history. split; [exact wit_w0_inv|]. destruct wi
 (** The archive rule: the next newer revision's objects include those of its ObjectSlices. *)
 Theorem archive_sound_now hash fault slices stale w w' evs r n pbp ur :
   NoDup (map sname (dw_sets w)) -> dep_pass hash fault slices stale w = (w', evs, r) ->
-  In (DUpdate n LArchived pbp ur) evs -> archivable (full_objects slices) (listed stale w) n.
-Proof. intros Hnd Hp Hi. exact (proj2 (archive_sound hash fault slices true true stale w w' evs r n pbp ur Hnd Hp Hi)). Qed.
+  In (DUpdate n LArchived pbp ur) evs -> archivable (full_objects slices) (refs_known slices) (listed stale w) n.
+Proof.
+  intros Hnd Hp Hi. pose proof (proj2 (archive_sound hash fault slices true true stale w w' evs r n pbp ur Hnd Hp Hi)) as H.
+  eapply archivable_okn_impl; [|exact H]. intros s Hs. now apply Hs.
+Qed.
+
+Theorem archive_kernel_now fault slices L st mem st' mem' l :
+  to_archive fault slices st mem (rev L) = (st', mem', l) -> p_dead st' = false ->
+  forall n, In n l -> archivable (full_objects slices) (refs_known slices) L n.
+Proof.
+  intros H Hal n Hn. pose proof (archive_kernel_sound fault slices true L st mem st' mem' l H Hal n Hn) as H0.
+  eapply archivable_okn_impl; [|exact H0]. intros s Hs. now apply Hs.
+Qed.
+
+(** A referenced ObjectSlice that cannot be read (NotFound or any other error) fails the walk: the pass ends with an
+    error and archives nothing. *)
+Theorem unreadable_slice_fails fault slices st cur :
+  ~ refs_known slices cur -> p_dead (load_slices_req fault slices st cur) = true.
+Proof.
+  intros H. destruct (p_dead (load_slices_req fault slices st cur)) eqn:E; [reflexivity|].
+  elim H. eapply load_slices_req_alive; eauto.
+Qed.
 
 (** ... the getter before f07b836 looked at the inline objects of the next newer revision only. *)
 Theorem archive_sound_v0_inline hash fault slices stale w w' evs r n pbp ur :
   NoDup (map sname (dw_sets w)) -> dep_pass_v0 hash fault slices stale w = (w', evs, r) ->
-  In (DUpdate n LArchived pbp ur) evs -> archivable set_objects (listed stale w) n.
-Proof. intros Hnd Hp Hi. exact (proj2 (archive_sound hash fault slices false false stale w w' evs r n pbp ur Hnd Hp Hi)). Qed.
+  In (DUpdate n LArchived pbp ur) evs -> archivable set_objects (fun _ => True) (listed stale w) n.
+Proof.
+  intros Hnd Hp Hi. pose proof (proj2 (archive_sound hash fault slices false false stale w w' evs r n pbp ur Hnd Hp Hi)) as H.
+  eapply archivable_okn_impl; [|exact H]. auto.
+Qed.
 
 Theorem archive_sound_v0_refuted :
   exists w slices evs w' r n pbp r1 r2 k,
     dep_pass_v0 wit_hash None slices false w = (w', evs, r) /\ In (DUpdate n LArchived pbp WOk) evs /\
     listed false w = [r1; r2] /\ sname r1 = n /\ In k (os_ctrlof (ds_set r1)) /\ In k (full_objects slices r2) /\
-    is_available r2 = false /\ ~ archivable (full_objects slices) (listed false w) n.
+    is_available r2 = false /\ ~ archivable (full_objects slices) (fun _ => True) (listed false w) n.
 Proof.
   destruct (dep_pass_v0 wit_hash None wit_slices false wit_sliced_world) as [[w' evs] r] eqn:Ep.
   exists wit_sliced_world, wit_slices, evs, w', r, 300, false, wit_r1, wit_r2, (wit_key 1).
@@ -2614,7 +2745,7 @@ Proof.
   intros (l1 & x & l2 & EL & En & Hne & _ & _ & Hd).
   assert (E : listed false wit_sliced_world = [wit_r1; wit_r2]) by reflexivity. rewrite E in EL.
   destruct l1 as [|y l1]; cbn in EL.
-  - injection EL as <- <-. destruct Hd as [(s & Hs & Ha & _)|(_ & nx & l3 & act & Enx & _ & Hact & Hdis)].
+  - injection EL as <- <-. destruct Hd as [(s & Hs & Ha & _)|(_ & nx & l3 & act & Enx & _ & Hact & _ & Hdis)].
     + destruct Hs as [<-|[]]. discriminate.
     + injection Enx as <- <-. injection Hact as <-. apply (Hdis (wit_key 1)); now left.
   - injection EL as <- EL. destruct l1 as [|z l1]; cbn in EL; [injection EL as <- <-; now apply Hne|].
@@ -2636,6 +2767,26 @@ Theorem no_reuse_now hash slices stale w w' evs r c :
 Proof.
   intros H1 H2 H3 H4 H5 H6 H7 H8 H9. apply (no_reuse hash slices true true stale w w' evs r c H1 H2 H3 H4 H5 H6 H7); [|exact H9].
   destruct H8 as [H|[H|[H|[Ha Hb]]]]; auto. right. right. right. auto.
+Qed.
+
+(** Bounded progress after a clash: the bumped counter is stored by the pass that met the clash, so the next pass asks
+    for the name that belongs to the bumped counter. *)
+Theorem clash_then_next_name hash slices stale w w' evs r c fault2 stale2 w'' evs2 r2 n phs prev h cr :
+  NoDup (map sname (dw_sets w)) -> d_paused (dw_dep w) = false -> d_phases (dw_dep w) <> [] ->
+  has_rev0 (listed stale w) = false -> has_current (dep_hashed hash w) (listed stale w) = false ->
+  In c (dw_sets w) -> sname c = hash (d_digest (dw_dep w)) (d_cc (dw_dep w)) ->
+  (is_archived c = true \/ phases_eqb (d_phases (dw_dep w)) (os_phases (ds_set c)) = false \/
+   ds_ctrl c <> oi_uid (d_id (dw_dep w)) \/
+   ((srev c < latest_revision (listed stale w))%Z /\ srev c <> 0%Z)) ->
+  dep_pass hash None slices stale w = (w', evs, r) ->
+  dep_pass hash fault2 slices stale2 w' = (w'', evs2, r2) -> In (DCreate n phs prev h cr) evs2 ->
+  d_cc (dw_dep w') = bump_cc (d_cc (dw_dep w)) /\ n = hash (d_digest (dw_dep w)) (bump_cc (d_cc (dw_dep w))).
+Proof.
+  intros H1 H2 H3 H4 H5 H6 H7 H8 Hp Hp2 Hi.
+  destruct (no_reuse_now hash slices stale w w' evs r c H1 H2 H3 H4 H5 H6 H7 H8 Hp) as (_ & _ & _ & Hcc & _).
+  destruct (dep_pass_frame hash None slices true true stale w w' evs r Hp) as (Hnd & _ & _ & _ & _ & (_ & _ & _ & Hdg & _)).
+  destruct (create_justified hash fault2 slices true true stale2 w' w'' evs2 r2 n phs prev h cr (Hnd H1) Hp2 Hi) as (_ & _ & _ & _ & -> & _).
+  now rewrite Hdg, Hcc.
 Qed.
 
 (** ** The two shapes agree outside the repaired cases *)
